@@ -16,7 +16,7 @@ from ..core import AnalysisError, Func, Repo, Report, call_name, calls_in, chain
 from ..dataflow import DefUse
 from ..resolve import Resolver
 from ..sites import guard_chain
-from .util import canon, cguards
+from .util import canon, cguards, cguards_any
 import re
 from .c15 import ACCUMULATORS, _lowerer_attr, mutated_attrs, scoped_state
 
